@@ -23,7 +23,7 @@ TECHNIQUE = "abstract interpretation of process_all_requirements / install_requi
 
 PROC = "requirements.py::process_all_requirements"
 INST = "requirements.py::install_requirements"
-LINES = ["foo", "foo==1.0.0", "foo==2.0.0", "foo==2.0", "# just a comment", "", "foo>=1.5", "foo==1.5.0  # pin (see issue), works with >=1.5, <3", "foo~=1.0"]
+LINES = ["foo", "foo==1.0.0", "foo==2.0.0", "foo==2.0", "foo==10.0.0", "# just a comment", "", "foo>=1.5", "foo==1.5.0  # pin (see issue), works with >=1.5, <3", "foo~=1.0"]
 
 
 def _version_summary(interp, node, args, kwargs, cfg, out):
@@ -201,10 +201,31 @@ def _install(program, consts, allow, installed, recorded, wanted):
     def update_entry(interp, node, args, kwargs, cfg, out):
         return [(cfg.hset("$stored", kwargs.get("data", NONE)), NONE)]
 
+    CIP = consts["CONF_INSTALLED_PACKAGES"].v
+
+    def data_get(interp, node, args, kwargs, cfg, out):
+        # the stored record is one dictionary object inside entry.data: reads hand out an alias of it (slot entry.installed),
+        # so an in-place change is visible to every later read - and is never persisted unless async_update_entry is called
+        if args and args[0] == Const(CIP):
+            cur = cfg.heap.get("entry.installed")
+            if cur is None:
+                return [(cfg, args[1] if len(args) > 1 else NONE)]
+            return [(cfg, DictV(cur.items, "entry.installed"))]
+        v = data.get(args[0]) if args else None
+        return [(cfg, v if v is not None else (args[1] if len(args) > 1 else NONE))]
+
+    def data_copy(interp, node, args, kwargs, cfg, out):
+        cur = cfg.heap.get("entry.installed")
+        items = [(k, v) for k, v in data.items if k != Const(CIP)] + ([(Const(CIP), DictV(cur.items, "entry.installed"))] if cur is not None else [])
+        return [(cfg, DictV(items))]
+
     pol = FlowPolicy(program, events=["async_process_requirements"], may_raise_all=False, cancel=False, globals_=dict(consts),
-                     summaries={"hass.async_add_executor_job": executor, "Version": _version_summary, "hass.config_entries.async_update_entry": update_entry})
-    pol.track_aliases = False
-    out = run_flow(program, INST, pol, args={"hass": Sym(("hass",)), "config_entry": entry, "pyscript_folder": Const("/cfg/pyscript")}, heap={"entry.data": data})
+                     summaries={"hass.async_add_executor_job": executor, "Version": _version_summary, "hass.config_entries.async_update_entry": update_entry,
+                                "config_entry.data.get": data_get, "config_entry.data.copy": data_copy})
+    heap = {"entry.data": ObjV("entrydata", "MappingProxy")}
+    if recorded is not None:
+        heap["entry.installed"] = DictV([(Const("foo"), Const(recorded))])
+    out = run_flow(program, INST, pol, args={"hass": Sym(("hass",)), "config_entry": entry, "pyscript_folder": Const("/cfg/pyscript")}, heap=heap)
     res = []
     for kind, c, desc in exits(out):
         if kind != "return":
